@@ -1441,6 +1441,9 @@ class ForAll(BinaryOperator):
             # If the condition yields no satisfying bindings for this universal value, the universal fails
             if not current:
                 self.solution_set = []
+                # the remaining values of the universal variable are not needed, but its evaluation has already
+                # recorded in its result caches that it covers them.
+                self.variable._clear_result_caches_()
                 break
 
             if var_val_index == 0:
@@ -1455,6 +1458,7 @@ class ForAll(BinaryOperator):
 
             # Early exit if the intersection is empty
             if not self.solution_set:
+                self.variable._clear_result_caches_()
                 break
 
         # Yield the remaining bindings (non-universal) merged with the incoming sources
